@@ -111,6 +111,9 @@ let run (path : String.t) =
       if not (c10_state_ok st) then (add "c10"; why := "c10_state" :: !why);
       if not (obs_c02_ok evs) then (add "c02"; add "c08"; why := "obs_c02" :: !why);
       if not (obs_c02_no_pull_while_request_waits evs) then (add "c02"; add "c09"; why := "next_request_pulled_while_one_waits_for_a_pending_replier_sink" :: !why);
+      if not (obs_replier_not_polled_after_end evs) then (add "c10"; add "c09"; why := "replier_whose_stream_ended_is_still_bound_and_polled" :: !why);
+      if not (obs_requestor_not_polled_after_end evs) then (add "c09"; add "c02"; why := "requestor_stream_polled_after_its_end" :: !why);
+      if not (obs_rr_no_pull_after_close evs) then (add "c16"; add "c09"; why := "streams_asked_after_the_channel_closed" :: !why);
       if not (obs_c10_ok evs) then (add "c10"; why := "obs_c10" :: !why);
       if not (obs_c10_rebind_justified evs) then (add "c10"; why := "c10_rebind_while_bound_replier_alive" :: !why);
       if not (obs_rr_c09_bounded_ok evs) then (add "c09"; why := "bounded" :: !why);
